@@ -77,3 +77,46 @@ func aoGen(idx int) (progCase, bool) {
 func init() {
 	semanticFamilies = append(semanticFamilies, progFamily{Name: "S13-any-object-fields-by-name", Count: func(string) int { return aoCount() }, Gen: func(_ string, idx int) (progCase, bool) { return aoGen(idx) }})
 }
+
+// S19 comparisons of any-objects whose key sets differ: pairs with the same number of keys
+// under different names, a key on one side only, the same keys with another value, both empty;
+// compared by `==`, `!=`, in both orders, as elements of lists and through `contains`.
+
+var aoEqPairs = [][2][]string{
+	{{"a=1"}, {"b=1"}}, {{"a=1"}, {"a=1"}}, {{"a=1", "b=2"}, {"a=1"}}, {{"a=1"}, {"a=2"}}, {{}, {}},
+	{{"a=1", "b=2"}, {"a=1", "c=2"}}, {{"a=1", "b=2"}, {"c=1", "d=2"}}, {{"a=1", "b=2"}, {"b=2", "a=1"}}, {{}, {"a=1"}},
+}
+var aoEqUses = []string{"operators", "in-lists", "contains", "nested"}
+
+func aoEqCount() int { return len(aoEqPairs) * len(aoEqUses) }
+
+func aoEqGen(idx int) (progCase, bool) {
+	d := radix(idx, len(aoEqUses), len(aoEqPairs))
+	use, pair := aoEqUses[d[0]], aoEqPairs[d[1]]
+	build := func(name string, kvs []string) []hs.Stmt {
+		out := []hs.Stmt{hs.LetS(name, &hs.AnyObjLit{})}
+		for _, kv := range kvs {
+			out = append(out, hs.ES(hs.MCall(hs.V(name), "set", hs.S(kv[:1]), hs.I(int64(kv[2]-'0')))))
+		}
+		return out
+	}
+	body := append(build("x", pair[0]), build("y", pair[1])...)
+	switch use {
+	case "operators":
+		body = append(body, hs.Println(hs.Bin("==", hs.V("x"), hs.V("y"))), hs.Println(hs.Bin("==", hs.V("y"), hs.V("x"))), hs.Println(hs.Bin("!=", hs.V("x"), hs.V("y"))), hs.Println(hs.Bin("==", hs.V("x"), hs.V("x"))))
+	case "in-lists":
+		body = append(body, hs.Println(hs.Bin("==", hs.List(hs.V("x")), hs.List(hs.V("y")))), hs.Println(hs.Bin("!=", hs.List(hs.V("y"), hs.V("x")), hs.List(hs.V("x"), hs.V("y")))))
+	case "contains":
+		body = append(body, hs.LetS("l", hs.List(hs.V("x"))), hs.Println(hs.MCall(hs.V("l"), "contains", hs.V("y"))), hs.Println(hs.MCall(hs.V("l"), "contains", hs.V("x"))))
+	case "nested":
+		body = append(body, hs.LetS("ox", &hs.AnyObjLit{}), hs.ES(hs.MCall(hs.V("ox"), "set", hs.S("inner"), hs.V("x"))), hs.LetS("oy", &hs.AnyObjLit{}), hs.ES(hs.MCall(hs.V("oy"), "set", hs.S("inner"), hs.V("y"))),
+			hs.Println(hs.Bin("==", hs.V("ox"), hs.V("oy"))), hs.Println(hs.Bin("==", hs.V("oy"), hs.V("ox"))))
+	}
+	body = append(body, hs.Println(hs.S("end")))
+	prog := &hs.Program{Funcs: []*hs.Func{hs.Fn("main", nil, hs.Blk(nil, body...))}}
+	return mkCase(prog, "any-object-pair:"+itoa(d[1]), "compared:"+use), true
+}
+
+func init() {
+	semanticFamilies = append(semanticFamilies, progFamily{Name: "S19-comparisons-of-any-objects-whose-keys-differ", Count: func(string) int { return aoEqCount() }, Gen: func(_ string, idx int) (progCase, bool) { return aoEqGen(idx) }})
+}
